@@ -27,7 +27,9 @@ def gen(seed, nepisodes, nops, prefix='r'):
                 p['dev'], p['st'] = d, rng.randrange(256)
                 ops.append({'op': 'update', 'pkt': p})
             elif r < 0.75:
-                p = wire.packet(rng, rng.choice(['can', 'lin', 'eth', 'generic']), 30)
+                p = wire.packet(rng, rng.choice(['can', 'canfd', 'lin', 'eth', 'analog', 'generic']), 60)
+                if rng.random() < 0.3:
+                    p['mt'], p['pt'] = rng.choice([(2, 1), (2, 2), (255, 1), (255, 2), (0x7F, 2)])
                 if p['mt'] == 3 and p['pt'] in (1, 2):
                     p['pt'] = 3
                 p['dev'], p['st'] = d, 0
